@@ -6,6 +6,9 @@ package c04
 
 import (
 	"fmt"
+	"io"
+
+	"github.com/caddyserver/caddy/v2"
 	"sort"
 	"strings"
 
@@ -40,6 +43,16 @@ func parseOp(nk int, s string) (op, bool) {
 		}
 		return op{kind: opLN, key: k, ok: s[2] == 'o'}, true
 	}
+	if s == "c" {
+		return op{kind: opClose}, true
+	}
+	if len(s) == 3 && s[0] == 'O' && (s[2] == 'o' || s[2] == 'f') {
+		k, ok := digit(s[1])
+		if !ok || k >= nk {
+			return op{}, false
+		}
+		return op{kind: opOpen, key: k, ok: s[2] == 'o'}, true
+	}
 	if len(s) == 2 && strings.IndexByte("SDdR", s[0]) >= 0 {
 		k, ok := digit(s[1])
 		if !ok || k >= nk {
@@ -50,15 +63,25 @@ func parseOp(nk int, s string) (op, bool) {
 	return op{}, false
 }
 
-func parseCase(line string) (nk int, progs [][]op, sched []int, ok bool) {
+func parseCase(line string) (nk int, progs [][]op, sched []int, client bool, ok bool) {
 	var f []string
 	for _, x := range strings.Split(line, " ") {
 		if x != "" {
 			f = append(f, x)
 		}
 	}
-	if len(f) != 4 || f[0] != "sched" || len(f[1]) != 1 {
+	if len(f) != 4 || (f[0] != "sched" && f[0] != "writers") || len(f[1]) != 1 {
 		return
+	}
+	client = f[0] == "writers"
+	// a `writers` line has only client operations, a `sched` line none
+	for i := 0; i < len(f[2]); i++ {
+		ch := f[2][i]
+		isClient := ch == 'O' || ch == 'c'
+		okClient := isClient || ch == 'o' || ch == 'f' || ch == ',' || ch == ';' || ch == '-' || (ch >= '0' && ch <= '9')
+		if (client && !okClient) || (!client && isClient) {
+			return
+		}
 	}
 	nk, d := digit(f[1][0])
 	if !d || nk < 1 || nk > 4 {
@@ -76,6 +99,11 @@ func parseCase(line string) (nk int, progs [][]op, sched []int, ok bool) {
 			}
 			if len(p) > 8 {
 				return
+			}
+			for i, o := range p {
+				if o.kind == opClose && i != len(p)-1 {
+					return // closeLogs is the last thing a Logging does
+				}
 			}
 		}
 		progs = append(progs, p)
@@ -95,7 +123,7 @@ func parseCase(line string) (nk int, progs [][]op, sched []int, ok bool) {
 			sched = append(sched, t)
 		}
 	}
-	return nk, progs, sched, true
+	return nk, progs, sched, client, true
 }
 
 func (prop) Run(line string) core.Outcome {
@@ -108,18 +136,18 @@ func (prop) Run(line string) core.Outcome {
 		}
 		return runStress(f)
 	}
-	nk, progs, sched, ok := parseCase(line)
+	nk, progs, sched, client, ok := parseCase(line)
 	if !ok {
 		return core.Outcome{Impl: "bad-op", Tags: []string{"malformed", "trivial"}}
 	}
-	c := newController(nk, progs)
+	c := newController(nk, progs, client)
 	defer c.stop()
 	o := newOracle(nk, len(progs))
 	var toks []string
-	absent := func(key int) bool { _, present := c.up.References(key); return !present }
+	absent := func(key int) bool { _, present := c.up.References(c.key(key)); return !present }
 	hung := false
 	do := func(t *thread, inDrain bool) bool {
-		r := c.turn(t, o.holds, absent, inDrain)
+		r := c.turn(t, o.holds, o.oldest, absent, inDrain)
 		if r.hang {
 			hung = true
 			o.step(t.id, r, nil)
@@ -131,6 +159,17 @@ func (prop) Run(line string) core.Outcome {
 		}
 		obs := c.observe()
 		o.step(t.id, r, obs)
+		if client && r.op.kind == opOpen && r.opDone && o.tainted == "" {
+			// writerKeys = exactly the keys of the references the config holds, oldest first
+			got := t.logging.VerifWriterKeys()
+			same := len(got) == len(o.held[t.id])
+			for i := 0; same && i < len(got); i++ {
+				same = got[i] == c.key(o.held[t.id][i].key)
+			}
+			if !same {
+				o.fail("client-writerkeys", fmt.Sprintf("config %d: after openWriter(%d) Logging remembers %d key(s) to release but holds %d reference(s)", t.id, r.op.key, len(got), len(o.held[t.id])))
+			}
+		}
 		toks = append(toks, fmt.Sprintf("%d:%s/%s", t.id, r.tok, obsStr(obs)))
 		return true
 	}
@@ -183,9 +222,17 @@ func (prop) Run(line string) core.Outcome {
 			end = "ok"
 			var items []rngItem
 			c.up.Range(func(key, value any) bool {
-				kk, _ := key.(int)
-				v, _ := asVal(value)
-				items = append(items, rngItem{kk, v})
+				for kk := 0; kk < nk; kk++ {
+					if key == c.key(kk) {
+						v, _ := asVal(value)
+						if w, isW := value.(io.WriteCloser); isW && v == nil {
+							if pw, isP := caddy.VerifUnwrapWriter(w).(*probeWriter); isP {
+								v = pw.v
+							}
+						}
+						items = append(items, rngItem{kk, v})
+					}
+				}
 				return true
 			})
 			sort.Slice(items, func(i, j int) bool { return items[i].key < items[j].key })
